@@ -207,7 +207,9 @@ def numbering(chk, sf, dprog, cfg):
         if is_call(ct, "core::iter::traits::iterator::Iterator::map", nargs=2) and is_call(ct[2][0], "core::iter::traits::iterator::Iterator::enumerate", nargs=1):
             flt = ct[2][0][2][0]
             okf, why = cd.is_skip_filter(dprog, flt)
-            src_ok = okf and flt[2][0][0] == "call" and flt[2][0][1]["name"].split("::")[-1] in ("into_iter", "iter")
+            # the filtered source is the variant list itself: `variants.iter()`, or the argument of a private filtering helper (which iterates it)
+            src_ok = okf and ((flt[2][0][0] == "call" and flt[2][0][1]["name"].split("::")[-1] in ("into_iter", "iter"))
+                              or (flt[0] == "call" and flt[1]["name"].startswith(cd.D) and len(flt[2]) == 1))
             cl, ups = mir.closure_of(ct[2][1])
             cb = dprog.body(cl) if cl else None
             vi_ok = False
@@ -395,7 +397,7 @@ def emission(chk, dprog, cfg):
         owner = mir.strip_generics(b.path)
         if owner.startswith(cd.D + "attr::"):
             continue
-        n += 1
+        n += cd.site_weight(dprog, b)
         ok, why = cd.is_skip_filter(dprog, consumer, body=b, site=ct)
         if not ok and (cd.is_gathering(consumer) or (consumer is None and mir.unref(b.return_term()) == ct)):
             chk.abstain("R3.4", "iteration:%s:%s" % (owner, elem.split("::")[-1]), b.where(bb), "the members are first gathered (%s); the selection happens on the gathered list" % (consumer[1]["name"].split("::")[-1] if consumer else "returned to a flat_map"), cfg,
